@@ -187,6 +187,10 @@ def site_guard(body, call_bb, callee_is_self, call_term):
         if not passed:
             continue
         name = body.local_name(l) or "_%d" % l
+        if kind == "param" and str(steps[0][2]).startswith("Sub"):
+            # a *budget* (counted down) that is passed by value bounds only the depth of the recursion: sibling subtrees each get
+            # the full budget again, so the total work is exponential in the depth. A shared budget travels by `&mut`.
+            continue
         desc = {"param": "integer parameter `%s`" % name,
                 "derived": "`%s` = an integer parameter + constant" % name,
                 "deref": "`%s%s` through &mut `%s`" % ("(*%s)" % name, "".join("." + f for f in fields), name)}[kind]
